@@ -222,6 +222,22 @@ int main(int argc, char **argv)
             static const char *EX[] = {"::", "::1", "1::", "1::2", "::ffff:1.2.3.4", "::1.2.3.4", "1:2:3:4:5:6:7:8", "1:2:3:4:5:6:7::", "::2:3:4:5:6:7:8", "1:2:3:4:5:6:7:8:9", "1:2:3:4:5:6:1.2.3.4", "1::2::3", ":::", "fe80::1%1", "fe80::1%lo", "fe80::1%nosuchif", "fe80::1%", "1.2.3", "1.2.3.4.5", "256.1.1.1", "01.2.3.4", "1.2.3.4 ", " 1.2.3.4", "1.2.3.04", "0x1.2.3.4", "1.2.3.-4", "", "localhost", "::g", "12345::", "::ffff:256.1.1.1", "1:2:3:4:5:6:7:8%1"};
             int i; if (shard == 0) for (i = 0; i < (int)(sizeof EX / sizeof EX[0]); i++) check_string(EX[i]);
         }
+        if (shard == ns - 1) {   /* texts of every length up to the longest forms (39 / 45 characters) x zone suffixes of every length: no text length is special */
+            static const char *ZONES[] = {"", "%1", "%12", "%123", "%1234", "%12345", "%123456", "%1234567", "%12345678", "%123456789", "%4294967295", "%4294967296", "%0000000000000001", "%lo", "%nosuchinterface0", "%"};
+            static const char *HEX[] = {"f", "1f", "a1f", "fe80"}; static const char *DEC[] = {"1", "25", "255"};
+            char base[80], full[128]; int d, k, g, z; size_t o;
+            for (d = 0; d < 4; d++) for (k = 0; k < 4; k++) {
+                int nb = 0; char bases[12][80];
+                /* 8 groups of d+1 digits (first group fe80: link-local, so that a zone is meaningful) */
+                o = snprintf(base, sizeof base, "fe80"); for (g = 1; g < 8; g++) o += snprintf(base + o, sizeof base - o, ":%s", HEX[d]); strcpy(bases[nb++], base);
+                /* compressed: fe80:: followed by k+1 groups */
+                o = snprintf(base, sizeof base, "fe80:"); for (g = 0; g <= k; g++) o += snprintf(base + o, sizeof base - o, ":%s", HEX[d]); strcpy(bases[nb++], base);
+                /* 6 groups and a dotted quad */
+                if (k < 3) { o = snprintf(base, sizeof base, "fe80"); for (g = 1; g < 6; g++) o += snprintf(base + o, sizeof base - o, ":%s", HEX[d]); snprintf(base + o, sizeof base - o, ":%s.%s.%s.%s", DEC[k], DEC[k], DEC[k], DEC[k]); strcpy(bases[nb++], base); }
+                if (k < 3) { snprintf(base, sizeof base, "::ffff:%s.%s.%s.%s", DEC[k], DEC[k], DEC[k], DEC[k]); strcpy(bases[nb++], base); }
+                for (g = 0; g < nb; g++) for (z = 0; z < (int)(sizeof ZONES / sizeof ZONES[0]); z++) { snprintf(full, sizeof full, "%s%s", bases[g], ZONES[z]); check_string(full); }
+            }
+        }
     } else if (!strcmp(MODE, "lengths")) check_lengths();
     else if (!strcmp(MODE, "v4all")) {
         uint32_t shard = (uint32_t)atoi(argv[2]), ns = (uint32_t)atoi(argv[3]); uint64_t h;
